@@ -388,6 +388,27 @@ def asyncRead (p : AProto) (t : TType) (s : Stream) : Out (TVal × Nat) :=
   | .bin e => pulled s (runS (ABin.readVal e (budget s) t) s)
   | .cmp => pulled s (runS ((ACmp.readVal (budget s) t {}).bind fun (v, _) => .ret v) s)
 
+/-- skip one value of wire type `t` with the async skipper, depth budget `d` (`skip` uses 64). -/
+def asyncSkip (p : AProto) (d : Nat) (t : TType) (s : Stream) : Out (Unit × Nat) :=
+  match p with
+  | .bin e => pulled s (runS (ABin.skip e (budget s) d t) s)
+  | .cmp => pulled s (runS ((ACmp.skip (budget s) d t {}).bind fun _ => .ret ()) s)
+
+/-- the same two on flat bytes (`Lemmas/AsyncFlat`: they coincide with the stream versions). -/
+def pulledF {α} (bs : Bytes) : Out (α × Bytes) → Out (α × Nat)
+  | .ok (a, r) => .ok (a, bs.length - r.length)
+  | .err k => .err k | .panic m => .panic m | .fuel => .fuel
+
+def asyncReadF (p : AProto) (t : TType) (bs : Bytes) : Out (TVal × Nat) :=
+  match p with
+  | .bin e => pulledF bs (runF (ABin.readVal e (3 * bs.length + 3) t) bs)
+  | .cmp => pulledF bs (runF ((ACmp.readVal (3 * bs.length + 3) t {}).bind fun (v, _) => .ret v) bs)
+
+def asyncSkipF (p : AProto) (d : Nat) (t : TType) (bs : Bytes) : Out (Unit × Nat) :=
+  match p with
+  | .bin e => pulledF bs (runF (ABin.skip e (3 * bs.length + 3) d t) bs)
+  | .cmp => pulledF bs (runF ((ACmp.skip (3 * bs.length + 3) d t {}).bind fun _ => .ret ()) bs)
+
 /-- the in-memory decoder on the same bytes. -/
 def syncRead (p : AProto) (t : TType) (bs : Bytes) : Out (TVal × Bytes) :=
   match p with
